@@ -257,9 +257,8 @@ class Emcee(AbstractMCMC):
         search_internal = search_internal or self.backend
 
         if os.environ.get("PYAUTOFIT_TEST_MODE") == "1":
-            samples_after_burn_in = search_internal.get_chain(
-                discard=5, thin=5, flat=True
-            )
+            discard = 5
+            thin = 5
 
         else:
             auto_correlations = self.auto_correlations_from(
@@ -268,19 +267,18 @@ class Emcee(AbstractMCMC):
 
             discard = int(3.0 * np.max(auto_correlations.times))
             thin = int(np.max(auto_correlations.times) / 2.0)
-            samples_after_burn_in = search_internal.get_chain(
-                discard=discard, thin=thin, flat=True
-            )
+
+        samples_after_burn_in = search_internal.get_chain(
+            discard=discard, thin=thin, flat=True
+        )
 
         parameter_lists = samples_after_burn_in.tolist()
 
         log_prior_list = model.log_prior_list_from(parameter_lists=parameter_lists)
 
-        total_samples = len(parameter_lists)
-
-        log_posterior_list = search_internal.get_log_prob(flat=True)[
-            -total_samples - 1 : -1
-        ].tolist()
+        log_posterior_list = search_internal.get_log_prob(
+            discard=discard, thin=thin, flat=True
+        ).tolist()
 
         log_likelihood_list = [
             log_posterior - log_prior
